@@ -110,7 +110,7 @@ TEMPLATES = [
     ('7-azaindole', '[nH]1c{0}c{1}c2c{2}c{3}c{4}nc12', 'N1C{0}=C{1}C2=C{2}C{3}=C{4}N=C12'),
     ('5-azaindole-tautomer', None, 'N1C{0}=C{1}C2=NC{2}=C{3}C2=C1'),
     ('indolizine', 'c1{0}c{1}c{2}n2c{3}c{4}c{5}c{6}c12', 'C=1{0}C{1}=C{2}N2C{3}=C{4}C{5}=C{6}C2=1'),
-    ('imidazo[1,2-a]pyridine', 'c1{0}nc2c{1}c{2}c{3}c{4}n2c1{5}', 'C1{0}=NC2=C{1}C{2}=C{3}C{4}=N2C1{5}'),
+    ('imidazo[1,2-a]pyridine', 'c1{0}nc2c{1}c{2}c{3}c{4}n2c1{5}', 'C=1{0}N=C2C{1}=C{2}C{3}=C{4}N2C=1{5}'),
     ('azulene', 'c1{0}c{1}c{2}c2c{3}c{4}c{5}c{6}c{7}c12', 'C1{0}=C{1}C{2}=C2C{3}=C{4}C{5}=C{6}C{7}=C12'),
     ('pentalene', None, 'C1{0}=C{1}C2=C{2}C{3}=C{4}C2=C1'),
     ('heptalene', None, 'C1{0}=C{1}C{2}=C2C{3}=C{4}C{5}=C{6}C{7}=C2C{8}=C1{9}'),
